@@ -76,6 +76,7 @@ func cmdCheck(args []string) int {
 	prop := fs.String("property", "", "property id")
 	tier := fs.String("tier", os.Getenv("VERIF_TIER"), "quick|thorough")
 	claimMode := fs.Bool("claim", false, "rewrite the claim list from this run (unchanged tree only)")
+	noEvidence := fs.Bool("noevidence", false, "do not write evidence / replay files (selftest runs against scratch copies)")
 	fs.Parse(args)
 	if *tier == "" {
 		*tier = "quick"
@@ -203,6 +204,16 @@ func cmdCheck(args []string) int {
 		}
 	}
 
+	// ---- prelude lemmas (induction proofs) are obligations of every check
+	for _, lr := range checkLemmas(timeout) {
+		st := "unsat"
+		if !lr.OK {
+			st = "unknown"
+		}
+		n := "prelude#lemma:" + lr.Name
+		all = append(all, oblRes{name: n, base: n, fn: "prelude", kind: "lemma", src: "induction proof in lemmas/" + lr.Name + ".smt2", ok: lr.OK, status: st, solver: lr.Solver, output: lr.Output, timeS: lr.TimeS})
+	}
+
 	// ---- claim mode: rewrite the claim list
 	if *claimMode {
 		good := map[string]bool{}
@@ -242,6 +253,9 @@ func cmdCheck(args []string) int {
 	// ---- verdicts
 	violations := 0
 	replayDir := filepath.Join(verifDir(), "replays", id)
+	if *noEvidence {
+		replayDir = filepath.Join(os.TempDir(), "govc-selftest-replays", id)
+	}
 	os.MkdirAll(replayDir, 0o755)
 	var unproved []string
 	var knownHit []string
@@ -374,9 +388,11 @@ func cmdCheck(args []string) int {
 		"wall_s":      time.Since(start).Seconds(),
 		"violations":  violations,
 	}
-	os.MkdirAll(filepath.Join(verifDir(), "evidence"), 0o755)
-	data, _ := json.MarshalIndent(ev, "", " ")
-	os.WriteFile(filepath.Join(verifDir(), "evidence", id+".json"), append(data, '\n'), 0o644)
+	if !*noEvidence {
+		os.MkdirAll(filepath.Join(verifDir(), "evidence"), 0o755)
+		data, _ := json.MarshalIndent(ev, "", " ")
+		os.WriteFile(filepath.Join(verifDir(), "evidence", id+".json"), append(data, '\n'), 0o644)
+	}
 	fmt.Printf("%s %s: %d/%d claimed obligations discharged over %d functions; %d violations; %d unclaimed undischarged; %.1fs\n", id, *tier, nDis, nObl, len(fevs), violations, len(unproved), time.Since(start).Seconds())
 	if nObl == 0 {
 		fmt.Fprintln(os.Stderr, "no obligations generated: check is vacuous")
